@@ -296,11 +296,12 @@ def check_fragment(old, frag, acl):
             raise AssertionError("oracle: unsatisfiable object-only case %r %r %r" % (old, frag, acl))
         return None, False
     old0, frag0 = copy.deepcopy(old), copy.deepcopy(frag)
+    nontrivial = cnt.matched > 0 and not jeq(exp, old0) and not jeq(exp, frag0)
     out = []
     try:
         r = jsontools.apply_json_fragment(old, frag, list(acl))
     except Exception as e:  # pylint: disable=broad-except
-        return [(info.key("fragment", "exception"), "apply_json_fragment raises", exp, repr(e))], True
+        return [(info.key("fragment", "exception"), "apply_json_fragment raises", exp, repr(e))], nontrivial
     if not jeq(r, exp):
         if not jeq(sel_values(r, pats), sel_values(frag, pats)):
             out.append((info.key("fragment", "selected"),
@@ -319,13 +320,13 @@ def check_fragment(old, frag, acl):
                 out.append((info.key("fragment", "not-idempotent"), "merging the fragment again changes the result", r_before, r2))
         except Exception as e:  # pylint: disable=broad-except
             out.append((info.key("fragment", "exception"), "apply_json_fragment raises on its own result", r, repr(e)))
-    nontrivial = cnt.matched > 0 and not jeq(exp, old0) and not jeq(exp, frag0)
     return out, nontrivial
 
 
 def check_patch(old, new):
     arr = arrays_differ(old, new)
     old0, new0 = copy.deepcopy(old), copy.deepcopy(new)
+    nontrivial = not jeq(old0, new0) and old0 != {} and new0 != {}
     out = []
     try:
         patch = jsontools.make_patch(old, new)
@@ -334,13 +335,13 @@ def check_patch(old, new):
         patch_bytes = jsontools.format_json(patch).encode()
         got = json.loads(jsontools.apply_patch(json.dumps(old).encode(), patch_bytes))
     except Exception as e:  # pylint: disable=broad-except
-        return [("bounded:C13:patch-array" if arr else "bounded:C13:patch-exception", "make_patch/apply_patch raises", new0, repr(e))], True
+        return [("bounded:C13:patch-array" if arr else "bounded:C13:patch-exception", "make_patch/apply_patch raises", new0, repr(e))], nontrivial
     if not jeq(got, new0):
         out.append(("bounded:C13:patch-array" if arr else "bounded:C13:patch-roundtrip", "apply_patch(old, make_patch(old, new)) != new (patch: %s)" % json.dumps(patch),
                     new0, got))
     if not jeq(old, old0) or not jeq(new, new0):
         out.append(("bounded:C13:patch-mutates-input", "make_patch mutates its input", dict(old=old0, new=new0), dict(old=old, new=new)))
-    return out, (not jeq(old0, new0) and old0 != {} and new0 != {})
+    return out, nontrivial
 
 
 def check_filter(doc, filters):
@@ -351,18 +352,19 @@ def check_filter(doc, filters):
         exp = {}
     info = Info().classify(pats, [doc])
     doc0 = copy.deepcopy(doc)
+    nontrivial = cnt.matched > 0 and not jeq(exp, doc0)
     out = []
     try:
         r = jsontools.apply_acl_filters(doc, list(filters))
     except Exception as e:  # pylint: disable=broad-except
-        return [(info.key("filter", "exception"), "apply_acl_filters raises", exp, repr(e))], True
+        return [(info.key("filter", "exception"), "apply_acl_filters raises", exp, repr(e))], nontrivial
     if not is_subdoc(r, doc0):
         out.append((info.key("filter", "not-subdocument"), "apply_acl_filters returns something that is not a part of the document", exp, r))
     elif not jeq(r, exp):
         out.append((info.key("filter", "not-restriction"), "apply_acl_filters returns a sub-document, but not the selected one", exp, r))
     if not jeq(doc, doc0):
         out.append(("bounded:C13:filter-mutates-input", "apply_acl_filters mutates the document", doc0, doc))
-    return out, (cnt.matched > 0 and not jeq(exp, doc0))
+    return out, nontrivial
 
 
 PATH1, PATH2 = "/etc/sonic/config_db.json", "/etc/other.json"
@@ -395,7 +397,7 @@ def check_chain(old_files, gens, safe):
         files = res.new_json_fragment_files(old_files, safe=safe)
         got = {p: v[0] for p, v in files.items()}
     except Exception as e:  # pylint: disable=broad-except
-        return [(info.key("chain", "exception"), "new_json_fragment_files raises", exp, repr(e))], True
+        return [(info.key("chain", "exception"), "new_json_fragment_files raises", exp, repr(e))], (cnt.matched >= 2 and len(gens) >= 2)
     if not jeq(got, exp):
         out.append((info.key("chain", "not-sequential"),
                     "new_json_fragment_files differs from merging the fragments one after another", exp, got))
